@@ -14,3 +14,4 @@ import OtterVerif.Props.C19
 import OtterVerif.Props.C20
 import OtterVerif.Props.C18
 import OtterVerif.Props.C13
+import OtterVerif.Props.C14
